@@ -426,10 +426,10 @@ import lib_arb2_real as R
 LATE = 1.0
 
 
-def reload_scenario(cls, phase, hups=1, bind="unix", new_workers=3, d=1.6):
+def reload_scenario(cls, phase, hups=1, bind="unix", new_workers=3, d=1.6, two_binds=False):
     """-> (failures, trace).  failures starting with KNOWN:<key> are reported under that key"""
     fails, tr = [], []
-    srv = R.Server(worker_class=cls, workers=2, graceful=6, bind=bind, marker="m0", keepalive=8)
+    srv = R.Server(worker_class=cls, workers=2, graceful=6, bind=bind, marker="m0", keepalive=8, second_bind=two_binds)
     load = None
     try:
         srv.start()
@@ -523,13 +523,17 @@ def reload_scenario(cls, phase, hups=1, bind="unix", new_workers=3, d=1.6):
 
 def run_real(ctx):
     if ctx.quick():
-        scns = [("sync", "app", 1, "unix", 3), ("gthread", "head", 2, "tcp", 1), ("sync", "idle", 2, "unix", 2), ("gevent", "resp", 1, "unix", 3)]
+        scns = [("sync", "app", 1, "unix", 3), ("gthread", "head", 2, "tcp", 1), ("sync", "idle", 2, "unix", 2), ("gevent", "resp", 1, "unix", 3),
+                ("gevent", "app", 1, "unix", 2, 1.6, True), ("eventlet", "app", 1, "tcp", 2, 1.6, True),
+                ("gthread", "app", 1, "unix", 2, 1.6, True), ("sync", "resp", 1, "unix", 2, 1.6, True)]
     else:
         scns = []
         for cls in ("sync", "gthread", "gevent", "eventlet"):
             for ph in ("idle", "head", "app", "resp", "keep"):
                 for hups in (1, 2):
                     scns.append((cls, ph, hups, "tcp" if len(scns) % 3 == 0 else "unix", [1, 3, 2][len(scns) % 3]))
+                # the same with a second, idle listener: the old worker must not take the idle one for "nothing in flight"
+                scns.append((cls, ph, 1, "unix", 2, 1.6, True))
     results = [None] * len(scns)
 
     def work(i):
